@@ -155,6 +155,15 @@ def run(seed, tier, lean) -> Result:
     res.violations.extend(genexec.generate_column('C01', res, third, edges='set'))
     return res
 
+def genexec_measure(seed: int, n: int) -> dict:
+    """tools/genexec_seeded.py: the cases of the quick check on (mutated) implementation / hand model / regenerated code"""
+    rnd = random.Random(seed); cases = []
+    for i in range(n):
+        r = random.Random(rnd.getrandbits(48))
+        spec = chain_language(r) if i % 4 == 3 else LangGen(r).gen()
+        cases.append((spec, gen_model(r, spec), (seed * 1000003 + i) if i % 3 == 2 else None, 0.4))
+    return genexec.generate_measure(cases, edges='set')
+
 def replay(path):
     r = json.load(open(path))
     v = check_case(r['spec'], r['inst'], None, Result(), churn_seed=r.get('churn_seed'))
